@@ -20,7 +20,26 @@ namespace RimeModel.C12
 
 abbrev Rid := String
 abbrev Content := Nat
-abbrev Time := Nat
+/-- a `time_t`: seconds since the epoch, 64-bit and signed (what `to_time_t(last_write_time(f))` and `time(NULL)` give) -/
+abbrev Time := Int
+/-- what the deployer *stores* of a time: an `int` (`__build_info/timestamps/<rid>`, `var/last_build_time`) -/
+abbrev Stamp := Int
+
+/-- `(int)t` for a 64-bit `time_t` (`(int)time(NULL)` for `last_build_time`; the source timestamps of the 32-bit
+    variant, see `recorded`): truncation to 32 bits, two's complement.
+    Identity on `[-2³¹, 2³¹)`; a date from 2038-01-19 on is stored as a negative number, one from 2106-02-07 on as a
+    small one.  Written and read back through `SetInt` / `GetInt` (decimal text of an `int`), which is lossless. -/
+def castInt (t : Int) : Int := (t + 2147483648) % 4294967296 - 2147483648
+
+/-- what `BuildInfoPlugin` records of the mtime of a source (`__build_info/timestamps/<rid>`) and what
+    `ConfigNeedsUpdate` compares the recorded value with.  Which of the two the tree at hand does is re-read from
+    `build_info_plugin.cc` and `deployment_tasks.cc` on every run (`Gen.DeployFacts.timestampBits`, gen/deploy_facts.py):
+    * 32: written as `(int)to_time_t(…)`, read with `GetInt`, compared with `(int)to_time_t(…)` — librime up to and
+      including 45d2b2d; mtimes a multiple of 2³² s apart are recorded alike, and a multiple of 2³² s is recorded as
+      0 = "absent";
+    * 64: written as the decimal text of the 64-bit value, read back with `std::stoll`, compared uncast. -/
+def recorded (t : Time) : Stamp :=
+  if Gen.DeployFacts.timestampBits = 64 then t else castInt t
 
 /-- resolved view of the config sources: resource id ↦ (content identity, mtime in seconds) -/
 abbrev Src := Rid → Option (Content × Time)
@@ -34,7 +53,7 @@ deriving DecidableEq, Repr
 /-- a compiled config in the staging directory -/
 structure CfgArt where
   /-- `__build_info/timestamps`: every resource the compiler enumerated, 0 = not loaded -/
-  stamps : List (Rid × Time)
+  stamps : List (Rid × Stamp)
   /-- identity of the compiled tree: the resources it was compiled from -/
   inputs : List (Rid × Option Content)
   /-- `schema_list` (only read from `default`); `none` = not a list -/
@@ -86,7 +105,7 @@ structure Arts (K : Type) where
   table : String → Option (TableArt K)
   prism : String → Option (PrismArt K)
   reverse : String → Option (ReverseArt K)
-  lastBuild : Time
+  lastBuild : Stamp
 
 def Arts.empty {K : Type} : Arts K := ⟨fun _ => none, fun _ => none, fun _ => none, fun _ => none, 0⟩
 
@@ -135,11 +154,12 @@ def Event.isWrite : Event → Bool
 
 /-! ## `ConfigNeedsUpdate` / `ConfigFileUpdate` -/
 
-/-- one entry of the timestamps map: vanished (recorded ≠ 0, file gone), changed or added (mtime differs) -/
-def stampStale (S : Src) (p : Rid × Time) : Bool :=
+/-- one entry of the timestamps map: vanished (recorded ≠ 0, file gone), changed or added (the recorded value
+    differs from what the file's mtime would be recorded as now) -/
+def stampStale (S : Src) (p : Rid × Stamp) : Bool :=
   match S p.1 with
   | none => p.2 != 0
-  | some ct => p.2 != ct.2
+  | some ct => p.2 != recorded ct.2
 
 def configNeedsUpdate (S : Src) : Option CfgArt → Bool
   | none => true
@@ -284,7 +304,7 @@ def visit {K : Type} [DecidableEq K] (E : Env K) (S : Src) (st : Loop K) (sid : 
   | none => st1
   | some sc => sc.deps.foldl (buildSchema E S true) st1
 
-/-- `WorkspaceUpdate::Run`; `now` = `time(NULL)` when it finishes -/
+/-- `WorkspaceUpdate::Run`; `now` = `time(NULL)` when it finishes (stored as `(int)time(NULL)`) -/
 def workspaceUpdate {K : Type} [DecidableEq K] (E : Env K) (S : Src) (now : Time) (A : Arts K) :
     Arts K × Bool × List Event :=
   let r := configFileUpdate E S .default A
@@ -295,7 +315,7 @@ def workspaceUpdate {K : Type} [DecidableEq K] (E : Env K) (S : Src) (now : Time
     | none => (r.1, false, r.2)
     | some l =>
       let st := l.foldl (visit E S) ⟨r.1, [], 0, r.2⟩
-      ({ st.arts with lastBuild := now }, st.failures == 0, st.log)
+      ({ st.arts with lastBuild := castInt now }, st.failures == 0, st.log)
 
 /-- the full deployment (`installation_update`, `workspace_update`, `user_dict_upgrade`, `cleanup_trash`):
     only `workspace_update` touches the artefacts modelled here -/
@@ -306,8 +326,9 @@ def deploy {K : Type} [DecidableEq K] (E : Env K) (S : Src) (now : Time) (A : Ar
 /-! ## `DetectModifications` (the pre-filter of `start_maintenance(False)`) -/
 
 /-- `mtimes`: the mtimes of the two data directories themselves and of every top-level regular `*.yaml`
-    in them except `user.yaml` -/
-def detectModifications (mtimes : List Time) (lastBuild : Time) : Bool :=
+    in them except `user.yaml`, as `time_t` (not truncated; the maximum starts from `time_t last_modified = 0`);
+    `lastBuild`: the stored `int`, widened back with `(time_t)last_build_time` -/
+def detectModifications (mtimes : List Time) (lastBuild : Stamp) : Bool :=
   decide (mtimes.foldl max 0 > lastBuild)
 
 end RimeModel.C12
